@@ -25,6 +25,7 @@ import (
 	"io"
 	"os"
 	"runtime"
+	"runtime/debug"
 	"strconv"
 	"strings"
 	"testing"
@@ -86,6 +87,10 @@ type c09Case struct {
 	// write family
 	FailAt  int  `json:"fail_at,omitempty"` // the k-th Write fails (0 = never)
 	Partial bool `json:"partial,omitempty"` // failing Write accepts half of its bytes
+	// cross family (histories over several streams)
+	Mode    string       `json:"mode,omitempty"`    // seq | overlap
+	Streams []c09XStream `json:"streams,omitempty"` // one scripted peer per call
+	Order   []int        `json:"order,omitempty"`   // overlap: global arrival order of the chunks (stream indices)
 }
 
 func (c c09Case) String() string { b, _ := json.Marshal(c); return string(b) }
@@ -898,6 +903,538 @@ func c09DelayAssignments(parts int, fn func(d []int)) {
 }
 
 // ---------------------------------------------------------------------------
+// cross family: histories over SEVERAL streams. Every single call of
+// ReadDelimitedMessage may return exactly what it should while process-wide state
+// (a buffer pool, a scratch array, a cached reader) lets one stream damage
+// another. A history is 2-3 scripted peers, each with its own reader:
+//
+//   mode seq      the calls are issued one after the other. A peer either delivers
+//                 its whole frame (End "done", any composition into Read answers) or
+//                 a proper prefix of it and then stalls into the timeout (End
+//                 "stall"). A stalled peer is only SLOW: the Read the abandoned
+//                 reader goroutine is blocked in is answered LATER - with the rest of
+//                 the frame ("rest") or with 0xEE bytes ("junk", what a dying peer
+//                 may flush) - at a chosen point of a later call: after LateGap
+//                 chunks of stream LateCall have been delivered (LateGap ==
+//                 len(chunks) of a stalling stream = while that one is stalled;
+//                 LateCall == len(streams) = after the last call returned).
+//   mode overlap  all calls run at the same time on their own goroutines (the runner
+//                 reads several servers concurrently); the chunks of the streams
+//                 arrive one per millisecond of virtual time in the global order Order.
+//
+// Oracle (independent of the other streams): a completely delivered message is read
+// back exactly as written and stays so until the end of the history; a stalled call
+// returns the timeout error within the period with its own counts.
+// The family runs with GOMAXPROCS(1) and the collector switched off, so that a
+// sync.Pool (or any free list) hands an object put back by one call to the next one.
+
+type c09XStream struct {
+	Msg      int    `json:"msg"`
+	Chunks   []int  `json:"chunks"`         // composition of the delivered bytes
+	End      string `json:"end"`            // done | stall
+	Late     string `json:"late,omitempty"` // stall: rest | junk
+	LateCall int    `json:"late_call,omitempty"`
+	LateGap  int    `json:"late_gap,omitempty"`
+}
+
+type c09XReader struct {
+	frame       []byte
+	chunks      []int
+	deliver     int // sum of chunks
+	ci, in, pos int
+	stall       bool
+	late        string
+	wake        chan struct{}
+	woke        bool
+	junkLeft    int
+	before      func(gap int) // seq: called once before chunk number gap is served / before the stalling Read blocks
+	stallHooked bool
+	at          []time.Time // overlap: arrival instants of the chunks
+}
+
+func (r *c09XReader) Read(p []byte) (int, error) {
+	if len(p) == 0 {
+		return 0, nil
+	}
+	if r.pos < r.deliver {
+		if r.in == 0 {
+			if r.before != nil {
+				r.before(r.ci)
+			}
+			if r.at != nil {
+				if d := time.Until(r.at[r.ci]); d > 0 {
+					time.Sleep(d)
+				}
+			}
+		}
+		n := r.chunks[r.ci] - r.in
+		if n > len(p) {
+			n = len(p)
+		}
+		copy(p, r.frame[r.pos:r.pos+n])
+		r.pos += n
+		r.in += n
+		if r.in == r.chunks[r.ci] {
+			r.ci++
+			r.in = 0
+		}
+		return n, nil
+	}
+	if !r.stall {
+		return 0, io.EOF
+	}
+	if !r.woke {
+		if r.before != nil && !r.stallHooked {
+			r.stallHooked = true
+			r.before(len(r.chunks))
+		}
+		<-r.wake
+		r.woke = true
+	}
+	if r.late == "junk" {
+		n := len(p)
+		if n > r.junkLeft {
+			n = r.junkLeft
+		}
+		if n == 0 {
+			return 0, io.EOF
+		}
+		for i := 0; i < n; i++ {
+			p[i] = 0xEE
+		}
+		r.junkLeft -= n
+		return n, nil
+	}
+	if r.pos == len(r.frame) {
+		return 0, io.EOF
+	}
+	n := copy(p, r.frame[r.pos:])
+	r.pos += n
+	return n, nil
+}
+
+var c09Frames [][]byte // frame of each letter, as written by the binary stream encoder
+
+func c09FrameOf(letter int) []byte {
+	if c09Frames == nil {
+		c09Frames = make([][]byte, len(c09Alphabet))
+		for i := range c09Alphabet {
+			b, err := c09Produce("penc", []int{i})
+			if err != nil {
+				panic(err)
+			}
+			c09Frames[i] = b
+		}
+	}
+	return c09Frames[letter]
+}
+
+// c09CrossValid checks a (replayed) history against the frames produced now.
+func c09CrossValid(cs *c09Case) string {
+	n := len(cs.Streams)
+	if n < 2 {
+		return "fewer than two streams"
+	}
+	counts := make([]int, n)
+	for i, s := range cs.Streams {
+		if s.Msg < 0 || s.Msg >= len(c09Alphabet) {
+			return "unknown letter"
+		}
+		sum := 0
+		for _, c := range s.Chunks {
+			if c <= 0 {
+				return "empty chunk"
+			}
+			sum += c
+		}
+		L := len(c09FrameOf(s.Msg))
+		switch s.End {
+		case "done":
+			if sum != L {
+				return fmt.Sprintf("stream %d: chunks sum to %d, frame has %d bytes", i, sum, L)
+			}
+		case "stall":
+			if sum >= L || cs.Mode != "seq" {
+				return fmt.Sprintf("stream %d: stall after %d of %d bytes (mode %s)", i, sum, L, cs.Mode)
+			}
+			if s.LateCall <= i || s.LateCall > n {
+				return fmt.Sprintf("stream %d: late bytes during call %d", i, s.LateCall)
+			}
+		default:
+			return "unknown ending"
+		}
+	}
+	if cs.Mode == "overlap" {
+		for _, o := range cs.Order {
+			if o < 0 || o >= n {
+				return "order names an unknown stream"
+			}
+			counts[o]++
+		}
+		for i, s := range cs.Streams {
+			if counts[i] != len(s.Chunks) {
+				return "order does not fit the chunk counts"
+			}
+		}
+	}
+	return ""
+}
+
+// c09RunCross executes one history (inside a bubble, see c09CrossEnv).
+func c09RunCross(cs *c09Case) (vs []c09Verdict, outcome string) {
+	n := len(cs.Streams)
+	add := func(key, format string, a ...any) {
+		vs = append(vs, c09Verdict{"rdm:" + key, fmt.Sprintf(format, a...)})
+	}
+	readers := make([]*c09XReader, n)
+	want := make([]*c09Resp, n)
+	for i, s := range cs.Streams {
+		rd := &c09XReader{frame: c09FrameOf(s.Msg), chunks: s.Chunks, stall: s.End == "stall", late: s.Late, wake: make(chan struct{}), junkLeft: 4096}
+		for _, c := range s.Chunks {
+			rd.deliver += c
+		}
+		readers[i] = rd
+		want[i] = c09Alphabet[s.Msg].Make()
+	}
+	fired := make([]bool, n)
+	fire := func(call, gap int) {
+		for i, s := range cs.Streams {
+			if s.End == "stall" && !fired[i] && s.LateCall == call && (s.LateGap == gap || gap < 0) {
+				fired[i] = true
+				close(readers[i].wake)
+				synctest.Wait() // the abandoned reader goroutine of stream i takes its late bytes now
+			}
+		}
+	}
+	steps := make([]c09Step, n)
+	returned := make([]bool, n)
+	done := make(chan struct{})
+	start := time.Now()
+	switch cs.Mode {
+	case "seq":
+		for j := range readers {
+			j := j
+			readers[j].before = func(gap int) { fire(j, gap) }
+		}
+		go func() {
+			defer close(done)
+			for j := 0; j < n; j++ {
+				steps[j] = c09Call("rdm", readers[j], nil, c09ReadLimit)
+				returned[j] = true
+				fire(j, -1) // late bytes scheduled at a point of call j that was never reached
+			}
+			fire(n, -1)
+		}()
+	case "overlap":
+		next := make([]int, n)
+		for i := range readers {
+			readers[i].at = make([]time.Time, len(cs.Streams[i].Chunks))
+		}
+		for k, o := range cs.Order {
+			readers[o].at[next[o]] = start.Add(time.Duration(k+1) * time.Millisecond)
+			next[o]++
+		}
+		left := make(chan int, n)
+		for j := 0; j < n; j++ {
+			j := j
+			go func() {
+				steps[j] = c09Call("rdm", readers[j], nil, c09ReadLimit)
+				left <- j
+			}()
+		}
+		go func() {
+			defer close(done)
+			for i := 0; i < n; i++ {
+				returned[<-left] = true
+			}
+		}()
+	}
+	horizon := time.Duration(n+1) * c09Horizon
+	tm := time.NewTimer(horizon)
+	hung := false
+	select {
+	case <-done:
+		tm.Stop()
+	case <-tm.C:
+		hung = true
+	}
+	for i := range readers {
+		if !fired[i] {
+			fired[i] = true
+			close(readers[i].wake)
+		}
+	}
+	if hung {
+		tm2 := time.NewTimer(horizon)
+		select {
+		case <-done:
+			tm2.Stop()
+		case <-tm2.C:
+		}
+		add("stall-no-timeout", "history of %d streams: the calls did not all return within %v of virtual time (timeout %v); returned: %v", n, horizon, c09Timeout, returned)
+		return vs, "cross/hung"
+	}
+	synctest.Wait()
+	var classes []string
+	for j, s := range cs.Streams {
+		st := steps[j]
+		who := fmt.Sprintf("stream %d of %d (%s, chunks %v, %s)", j+1, n, c09Alphabet[s.Msg].Name, s.Chunks, s.End)
+		if st.pan != "" {
+			add("panic", "%s: the call panicked: %s", who, st.pan)
+			return vs, "cross/panic"
+		}
+		classes = append(classes, s.End+"->"+c09ErrClass(st.err))
+		if s.End == "done" {
+			switch {
+			case st.err != nil:
+				add("other-stream-damages-message", "%s: the peer delivered its whole message, the call returned %q; the only disturbance is what the OTHER streams of the history did", who, st.err)
+			case !proto.Equal(st.msg, want[j]):
+				add("other-stream-damages-message", "%s: the call returned %v, written was %v; the only disturbance is what the OTHER streams of the history did", who, st.msg, want[j])
+			}
+			continue
+		}
+		ref := c09RefAt(false, readers[j].frame[:readers[j].deliver])
+		what := "message body"
+		if ref.InPrefix || !ref.Inside {
+			what = "length prefix"
+		}
+		where := fmt.Sprintf("%s: stalled inside the %s (%d of %d bytes delivered)", who, what, ref.K, ref.N)
+		switch {
+		case st.err == nil:
+			add("stall-yields-message", "%s, yet the call returned a message %v", where, st.msg)
+		case st.elapsed > c09Timeout:
+			add("timeout-late", "%s; the error came after %v of virtual time, configured timeout %v", where, st.elapsed, c09Timeout)
+		case errors.Is(st.err, io.EOF) || errors.Is(st.err, io.ErrUnexpectedEOF):
+			add("stall-reported-as-end-of-stream", "%s (stream not ended); got %q", where, st.err)
+		case !c09IsTimeoutErr(st.err):
+			add("stall-error-not-a-timeout", "%s; error does not speak of a timeout: %q", where, st.err)
+		case ref.Inside:
+			nums := c09Numbers(strings.ReplaceAll(st.err.Error(), c09Source, ""))
+			if !nums[ref.K] || !nums[ref.N] {
+				add("timeout-progress-wrong", "%s; the timeout text does not carry the counts %d and %d: %q", where, ref.K, ref.N, st.err)
+			}
+		}
+	}
+	if len(vs) == 0 {
+		// the messages handed out must not change afterwards (late bytes of a stalled peer, a later call)
+		for j, s := range cs.Streams {
+			if s.End == "done" && !proto.Equal(steps[j].msg, want[j]) {
+				add("message-changes-after-return", "stream %d of %d: the message was returned intact and reads %v at the end of the history, written was %v", j+1, n, steps[j].msg, want[j])
+			}
+		}
+	}
+	return vs, "cross/" + cs.Mode + "/" + strings.Join(classes, ",")
+}
+
+// c09CrossEnv: one P and no collection while fn runs, so that free lists are handed on deterministically.
+func c09CrossEnv(fn func()) {
+	procs := runtime.GOMAXPROCS(1)
+	gc := debug.SetGCPercent(-1)
+	defer func() {
+		debug.SetGCPercent(gc)
+		runtime.GOMAXPROCS(procs)
+	}()
+	fn()
+}
+
+func c09CompList(c, full, maxParts int) [][]int {
+	var out [][]int
+	seen := map[string]bool{}
+	c09Comps(c, full, maxParts, func(ch []int) {
+		k := fmt.Sprint(ch)
+		if seen[k] {
+			return
+		}
+		seen[k] = true
+		out = append(out, append([]int(nil), ch...))
+	})
+	return out
+}
+
+// c09Merges enumerates all interleavings of a chunks of stream 0 and b chunks of stream 1.
+func c09Merges(a, b int, fn func(order []int)) {
+	order := make([]int, 0, a+b)
+	var rec func(i, j int)
+	rec = func(i, j int) {
+		if i == a && j == b {
+			fn(order)
+			return
+		}
+		if i < a {
+			order = append(order, 0)
+			rec(i+1, j)
+			order = order[:len(order)-1]
+		}
+		if j < b {
+			order = append(order, 1)
+			rec(i, j+1)
+			order = order[:len(order)-1]
+		}
+	}
+	rec(0, 0)
+}
+
+func (x *c09Run) crossFamily(thorough bool) {
+	if x.overBudget() {
+		return
+	}
+	nl := len(c09Alphabet)
+	type staller struct {
+		msg, cut int
+		late     string
+		edge     bool // cut is 0, mid-prefix, end of prefix or one byte short of the frame
+	}
+	var stallers []staller
+	for l := 0; l < nl; l++ {
+		L := len(c09FrameOf(l))
+		for cut := 0; cut < L; cut++ {
+			for _, late := range []string{"rest", "junk"} {
+				stallers = append(stallers, staller{l, cut, late, cut == 0 || cut == 2 || cut == 4 || cut == L-1})
+			}
+		}
+	}
+	chunksOfCut := func(cut int) []int {
+		if cut == 0 {
+			return []int{}
+		}
+		return []int{cut}
+	}
+	allComps := make([][][]int, nl)   // every composition of the frame
+	smallComps := make([][][]int, nl) // <= 2 parts and the all-1-byte one
+	for l := 0; l < nl; l++ {
+		L := len(c09FrameOf(l))
+		allComps[l] = c09CompList(L, L, 0)
+		smallComps[l] = c09CompList(L, 0, 2)
+	}
+	var total int64
+	perShape := map[string]int64{}
+	defer func() {
+		x.r.Extra["cross_histories_enumerated_all_shards"] = total
+		x.r.Extra["cross_histories_by_shape"] = perShape
+	}()
+	run := func(shape string, cs *c09Case) {
+		x.k++
+		total++
+		perShape[shape]++
+		if !x.r.Mine(x.k) {
+			return
+		}
+		if why := c09CrossValid(cs); why != "" {
+			x.t.Fatalf("cross family enumerates an invalid history (%s): %v", why, cs)
+		}
+		vs, outcome := c09RunCross(cs)
+		x.r.NonTrivial("")
+		if x.k%9973 == 1 {
+			x.r.Sample(*cs)
+		}
+		x.report(cs, vs, outcome)
+	}
+	c09CrossEnv(func() {
+		for _, s1 := range stallers {
+			if x.overBudget() {
+				return
+			}
+			runtime.GC() // between histories only; inside c09CrossEnv nothing is collected while one runs
+			x.bubble(fmt.Sprintf("cross/%s/%d/%s", c09Alphabet[s1.msg].Name, s1.cut, s1.late), func() {
+				{
+					first := c09XStream{Msg: s1.msg, Chunks: chunksOfCut(s1.cut), End: "stall", Late: s1.late}
+					// stall, then a healthy peer: late bytes before each of its chunks
+					for l2 := 0; l2 < nl; l2++ {
+						for _, ch := range allComps[l2] {
+							for gap := 0; gap < len(ch); gap++ {
+								a := first
+								a.LateCall, a.LateGap = 1, gap
+								run("stall,done", &c09Case{Fam: "cross", Target: "rdm", Mode: "seq", Streams: []c09XStream{a, {Msg: l2, Chunks: ch, End: "done"}}})
+							}
+						}
+					}
+					// a healthy peer first; the late bytes come after both calls have returned
+					for l2 := 0; l2 < nl; l2++ {
+						L2 := len(c09FrameOf(l2))
+						for _, ch := range c09CompList(L2, 0, 1) {
+							b := first
+							b.LateCall = 2
+							run("done,stall", &c09Case{Fam: "cross", Target: "rdm", Mode: "seq", Streams: []c09XStream{{Msg: l2, Chunks: ch, End: "done"}, b}})
+						}
+					}
+					// two stalled peers: the late bytes of the first before / after the delivered part of the second
+					for _, s2 := range stallers {
+						if s2.late != "rest" {
+							continue
+						}
+						ch2 := chunksOfCut(s2.cut)
+						for gap := 0; gap <= len(ch2); gap++ {
+							a := first
+							a.LateCall, a.LateGap = 1, gap
+							run("stall,stall", &c09Case{Fam: "cross", Target: "rdm", Mode: "seq", Streams: []c09XStream{a, {Msg: s2.msg, Chunks: ch2, End: "stall", Late: "rest", LateCall: 2}}})
+						}
+					}
+					// stall, healthy, healthy: the late bytes arrive during the third call
+					for l2 := 0; l2 < nl; l2++ {
+						L2 := len(c09FrameOf(l2))
+						for l3 := 0; l3 < nl; l3++ {
+							for _, ch := range smallComps[l3] {
+								for gap := 0; gap < len(ch); gap++ {
+									a := first
+									a.LateCall, a.LateGap = 2, gap
+									run("stall,done,done", &c09Case{Fam: "cross", Target: "rdm", Mode: "seq", Streams: []c09XStream{a, {Msg: l2, Chunks: []int{L2}, End: "done"}, {Msg: l3, Chunks: ch, End: "done"}}})
+								}
+							}
+						}
+					}
+					// stall, stall, healthy: both late deliveries during the third call
+					if !thorough && (!s1.edge || s1.late != "junk") {
+						return
+					}
+					for _, s2 := range stallers {
+						if !thorough && (!s2.edge || s2.late != "junk") {
+							continue
+						}
+						for l3 := 0; l3 < nl; l3++ {
+							for _, ch := range c09CompList(len(c09FrameOf(l3)), 0, 2) {
+								if len(ch) > 2 {
+									continue
+								}
+								for g1 := 0; g1 < len(ch); g1++ {
+									for g2 := 0; g2 < len(ch); g2++ {
+										a := first
+										a.LateCall, a.LateGap = 2, g1
+										b := c09XStream{Msg: s2.msg, Chunks: chunksOfCut(s2.cut), End: "stall", Late: s2.late, LateCall: 2, LateGap: g2}
+										run("stall,stall,done", &c09Case{Fam: "cross", Target: "rdm", Mode: "seq", Streams: []c09XStream{a, b, {Msg: l3, Chunks: ch, End: "done"}}})
+									}
+								}
+							}
+						}
+					}
+				}
+			})
+		}
+		// two healthy peers read at the same time, every interleaving of their chunk arrivals
+		parts := 2
+		if thorough {
+			parts = 3
+		}
+		for l1 := 0; l1 < nl && !x.overBudget(); l1++ {
+			x.bubble(fmt.Sprintf("cross/overlap/%d", l1), func() {
+				for _, ch1 := range c09CompList(len(c09FrameOf(l1)), 0, parts) {
+					for l2 := 0; l2 < nl; l2++ {
+						for _, ch2 := range c09CompList(len(c09FrameOf(l2)), 0, parts) {
+							if len(ch1) > parts || len(ch2) > parts {
+								continue // the all-1-byte compositions: too many interleavings
+							}
+							c09Merges(len(ch1), len(ch2), func(order []int) {
+								run("overlap", &c09Case{Fam: "cross", Target: "rdm", Mode: "overlap", Order: append([]int(nil), order...),
+									Streams: []c09XStream{{Msg: l1, Chunks: ch1, End: "done"}, {Msg: l2, Chunks: ch2, End: "done"}}})
+							})
+						}
+					}
+				}
+			})
+		}
+	})
+}
+
+// ---------------------------------------------------------------------------
 // oversize family
 
 func c09OversizeStream(cs *c09Case) (data []byte, mark int, want []*c09Resp) {
@@ -1469,7 +2006,7 @@ func (x *c09Run) writeFamily() {
 func TestVerifC09(t *testing.T) {
 	r := rep.New("c09-enum")
 	defer r.Write()
-	r.Rule = "one case = (target reader/writer, message sequence of 1-3 letters with sizes 0/2/3/5, number of stream bytes delivered, composition of those bytes into Read answers, ending eof|eof-with-last-data|io-error|io-error-with-last-data|stall [, zero-length-read behaviour]) resp. (limit, declared length, prefix composition) resp. (writer, sequence, index of the failing Write, partial); cases are distinct by construction; non-trivial = at least one byte is delivered (read), every oversize case, every failing-writer case"
+	r.Rule = "one case = (target reader/writer, message sequence of 1-3 letters with sizes 0/2/3/5, number of stream bytes delivered, composition of those bytes into Read answers, ending eof|eof-with-last-data|io-error|io-error-with-last-data|stall [, zero-length-read behaviour]) resp. (limit, declared length, prefix composition) resp. (writer, sequence, index of the failing Write, partial) resp. a history over 2-3 scripted peers (letter, composition, done|stall after a cut, late bytes rest|junk arriving at a chosen chunk boundary of a later call; or two calls at once with an interleaving of the chunk arrivals); cases are distinct by construction; non-trivial = at least one byte is delivered (read), every oversize case, every failing-writer case, every multi-stream history"
 	for _, l := range c09Alphabet {
 		b, err := proto.Marshal(l.Make())
 		if err != nil || len(b) != l.Size {
@@ -1523,6 +2060,14 @@ func TestVerifC09(t *testing.T) {
 			x.bubble("replay", func() { vs, outcome = c09RunTimed(st, &cs) })
 		case "oversize":
 			x.bubble("replay", func() { vs, outcome = c09RunOversize(&cs) })
+		case "cross":
+			if why := c09CrossValid(&cs); why != "" {
+				t.Fatalf("replay does not fit the frames produced now (%s): %v", why, cs)
+			}
+			for i, s := range cs.Streams {
+				fmt.Printf("stream %d: frame %q, delivered in chunks %v, then %s %s\n", i+1, c09FrameOf(s.Msg), s.Chunks, s.End, s.Late)
+			}
+			c09CrossEnv(func() { x.bubble("replay", func() { vs, outcome = c09RunCross(&cs) }) })
 		case "write":
 			vs, outcome = c09RunWrite(&cs)
 		default:
@@ -1539,6 +2084,7 @@ func TestVerifC09(t *testing.T) {
 	// small families first so that a budget stop never hides them
 	x.writeFamily()
 	x.oversizeFamily()
+	x.crossFamily(rep.Thorough())
 	x.timedFamily(rep.Thorough())
 	x.readFamily(rep.Thorough())
 	r.Extra["cases_enumerated_all_shards"] = x.k
